@@ -88,8 +88,8 @@ def run(tier, replay=None):
             # a simulator fault inside a compared step is caught and reported as a mismatch by the harness itself;
             # anything else that kills the process is a failure of the machinery, not a verdict on the property
             raise common.HarnessError("lock-step worker ended with status %s: %s" % (rc, err[-500:]))
-        for k in ("cycles", "cases", "stores", "sysreq", "signals", "binaries"):
-            tot[k] = tot.get(k, 0) + js[k]
+        for k in ("cycles", "cases", "stores", "sysreq", "signals", "binaries", "resets_over_clock_edge", "reset_pulses_between_edges"):
+            tot[k] = tot.get(k, 0) + js.get(k, 0)
         for o in range(16):
             for c in range(3):
                 table[o][c] += js["opc_table"][o][c]
@@ -107,6 +107,8 @@ def run(tier, replay=None):
     v.cov["stores_compared"] = tot.get("stores", 0)
     v.cov["cases"] = tot.get("cases", 0)
     v.cov["toolchain_binaries_run"] = tot.get("binaries", 0)
+    v.cov["mid_run_resets_held_over_a_clock_edge"] = tot.get("resets_over_clock_edge", 0)
+    v.cov["mid_run_reset_pulses_between_clock_edges"] = tot.get("reset_pulses_between_edges", 0)
     v.cov["opcode_table"] = {OPC[o]: {"oreg_zero": table[o][0], "oreg_pos": table[o][1], "oreg_neg": table[o][2]} for o in range(16)}
     v.cov["rand_reset_modes"] = [0, 1, 2]
     text_identity(v)
